@@ -19,6 +19,7 @@ RULE = (
     "normalised span trees, sibling interleaving being schedule dependent) and exactly one shutdown. The emission "
     "sites hit (event type x nested or not) are tabulated. Non-trivial: baseline stream has >= 4 events; distinct = "
     "(program shape, variant, fault position class)."
+    " Runs that pause at an interrupt (flat and nested), observed and with failing processors."
     " A processor that never raises but reorders / empties the lists in the events it is handed (multi-target decisions, uncached and replayed from a cache): outcome and invocations as without processors."
     " Two processors failing on the same event with healthy recorders before, between and behind them (layouts FFH, HFHFH, FHFH). Multi-target gates whose decision names END next to real targets."
     ' Also top-level runner.map over 0-3 items (empty maps included) with a processor failing on every event, on one event or at shutdown, next to a healthy one, both registration orders.'
@@ -116,7 +117,7 @@ def one_program(ctx, fam, i):
         cache_cls = InMemoryCache
     sites = Counter()
     nontrivial = False
-    for runner in ("sync", "async"):
+    for runner in fam.get("runners", ("sync", "async")):
         s = core.with_async(spec, runner == "async", rng, 0.6)
 
         def run_with(procs, prime=True):
@@ -277,6 +278,12 @@ def top_level_map(ctx, i):
     ctx.case({"f": "runner.map", "s": gen.shape_of(inner), "n": n_items}, True)
 
 
+def copy_nodes(nodes):
+    import copy
+
+    return copy.deepcopy(nodes)
+
+
 def multi_end_program(cached: bool) -> dict:
     """A fan-out gate (multi_target) whose decision names one branch AND END, or both branches, by a selector input."""
 
@@ -358,6 +365,13 @@ def run(ctx):
                 one_program(ctx, {"family": "cached" if cached else "gated", "spec": multi_end_program(cached), "inputs": {"i0": "run:i0", "s0": sel}}, 99)
                 ctx.obs["multi_target_end_programs"] += 1
         meddling_observer(ctx)
+        # runs that PAUSE at an interrupt (flat, and inside a nested graph): observed or not, with a processor failing at
+        # any index, the call returns the same PAUSED result
+        flat_p = {"name": "pz", "nodes": [{"k": "fn", "name": "mk", "params": [{"n": "i0"}], "outs": ["draft"]}, {"k": "int", "name": "ask", "params": [{"n": "draft"}], "outs": ["decision"], "handler": "pause"}, {"k": "fn", "name": "fin", "params": [{"n": "decision"}], "outs": ["final"]}], "bind": {}}
+        nested_p = {"name": "pzo", "nodes": [{"k": "sub", "name": "review", "prog": {"name": "review", "nodes": copy_nodes(flat_p["nodes"][:2]), "bind": {}}}, {"k": "fn", "name": "fin", "params": [{"n": "decision"}], "outs": ["final"]}], "bind": {}}
+        for pspec in (flat_p, nested_p):
+            one_program(ctx, {"family": "pausing", "spec": pspec, "inputs": {"i0": "run:i0"}, "runners": ("async",)}, 99)
+            ctx.obs["pausing_programs"] += 1
     for i in range(n):
         fam = families.rich(ctx.rng)
         one_program(ctx, fam, i)
